@@ -28,7 +28,62 @@ CLAIMS = [
         "note": "Trusted: Lean kernel; K2 harness + reference-map oracle; Float comparison load_factor()<minimum_load_factor() is opaque "
                 "in the theorems (IEEE double in the driver).",
     },
+    {
+        "property_id": "C02",
+        "technique": "Lean 4 refinement proof (invariant + simulation of an abstract map by induction over operation sequences) on an executable replica of the table, tied by K2 full-state differential",
+        "text": "Props/C02.lean: every public operation of the executable model (find/update/erase functors, the uprase family, rehash, reserve, "
+                "clear, setters, lock_table, locked insert/erase), started from ANY state satisfying the invariant Inv (any layout, pending "
+                "deferred migration, any hash function, any S>0, any power-of-two stripe limit), returns what the abstract association list "
+                "returns and re-establishes Inv and the representation relation Rel; an inserting/resizing call may instead fail with a "
+                "permitted error and then the map is unchanged; seq_refines lifts this to every finite sequence by induction. The model "
+                "is an exact replica (BFS slot search, path validation, move_bucket, lazy per-stripe migration, rebuild) and K2 compares "
+                "its full state (every cell, counters, flags, old array, lock arrays, resize counter) with the real table after every "
+                "operation, over S in {1,2,3,4,8} x stripe limit {2,4,8} (hook) x 3 key kinds x 6 hash families incl. adversarial ones.",
+        "design_ref": "DESIGN.md 6/C02, 12",
+        "note": "Trusted: Lean kernel; K2 harness/driver/reference-map oracle; helper threads (max_num_worker_threads>0) not modelled; the real "
+                "kMaxNumLocks=65536 configuration is exercised only in the thorough tier; C++ object model, allocator and std library are modelled, not verified.",
+    },
+    {
+        "property_id": "C05",
+        "technique": "Lean 4 theorems: size() = length of the abstract map as part of the refinement relation; K2 differential on stats + structural scan",
+        "text": "Props/C05.lean: Rel carries `sum of stripe counters = number of pairs`, every operation re-establishes Rel (C02), hence size(), "
+                "empty(), capacity(), load_factor() are exact after any operation sequence (size_exact_after_any_run), across displacement "
+                "(no counter touched), lock-array growth (sum preserved), deferred migration, shrinking, clear and stream extraction (C12). "
+                "The concurrent clause (after all threads joined) is covered by K3's final-state scan in the C01 check, not by a theorem here.",
+        "design_ref": "DESIGN.md 6/C05, 12",
+        "note": "Trusted as for C02. Per-stripe counters are deliberately not claimed exact (displacement moves elements between stripes).",
+    },
+    {
+        "property_id": "C09",
+        "technique": "Lean 4 theorems about the iterator functions on an arbitrary store + K2 differential of iteration sequences and iterator results",
+        "text": "Props/C09.lean, for every store of the right size and any S>0: forward traversal = the occupied positions in index order, each once, "
+                "ending at end(); backward traversal = its reverse; begin()==end() iff empty; iteration yields exactly the pairs of the "
+                "abstract map, each key at one position; find agrees with the map; erase(it) removes exactly that element, returns the successor "
+                "position and changes no other cell; insert returns the position of the new or present element (C02.ltInsert_refines).",
+        "design_ref": "DESIGN.md 6/C09, 12",
+        "note": "Trusted as for C02; at()/operator[]/count/equal_range are wrappers of find/insert and are only correspondence-checked (K2 + oracle).",
+    },
+    {
+        "property_id": "C12",
+        "technique": "Lean 4 round-trip theorem on the logical stream content + K2 differential (write, read into arbitrary destinations, workload afterwards)",
+        "text": "Props/C12.lean: reading the image of any locked source into any locked destination (smaller, larger, populated, more stripes than "
+                "buckets) yields Inv, the source's contents (Rel with the same map), size, minimum load factor and maximum hashpower; the source is "
+                "unchanged (write is a pure function); afterwards every operation sequence refines the map (usable_after_read, via C02).",
+        "design_ref": "DESIGN.md 6/C12, 12",
+        "note": "Byte layout of unoccupied storage is unspecified and not modelled; hypothesis src.hp <= src.mhp (physically always true) and a valid "
+                "stored load factor are explicit hypotheses; trivially-copyable key kind only (as the property states).",
+    },
+    {
+        "property_id": "C17",
+        "technique": "Lean 4 corollaries of the C02 refinement theorems about the recorded functor invocations + K2 differential of call records",
+        "text": "Props/C17.lean: the model records every functor invocation (context received, value seen); theorems: invoked exactly once with the stored "
+                "value iff the key is present (find_fn/update_fn/erase_fn), uprase/upsert call contract incl. NEWLY_INSERTED only for context-aware "
+                "functors, erased iff the functor returns true, boolean results, no call on a failed expansion, and the wrapper equivalences "
+                "(contains/update/erase/insert/insert_or_assign).",
+        "design_ref": "DESIGN.md 6/C17, 12",
+        "note": "Trusted as for C02; the C++ overload machinery (CanInvokeWithUpsertContext) is exercised by K2 with functors of both arities, not modelled.",
+    },
 ]
 
 _PENDING = "machinery not built yet in this round (planned: DESIGN.md section 6); not claimed until its check exists"
-NOT_APPLICABLE = [{"property_id": "C%02d" % i, "reason": _PENDING} for i in range(1, 18) if i not in (10, 13)]
+NOT_APPLICABLE = [{"property_id": "C%02d" % i, "reason": _PENDING} for i in range(1, 18) if i not in (2, 5, 9, 10, 12, 13, 17)]
